@@ -44,6 +44,9 @@ structure Proto where
                           -- INSIDE the critical section (`ClientRegistry.Register` with a gated `Close()` of the victim)
   scan : Bool := false    -- the count is a scan: `GetList(index)`, then one record read PER INDEX ENTRY, each counted
                           -- only if the entry is (still) active at the moment it is read (revoked codes stay in the index)
+  staleWrite : Bool := false
+                          -- usage update that READS the record before taking the record lock and writes its copy back
+                          -- under the lock (seeded regression `recordusage-read-outside-mapping-lock`)
   post : Nat := 0         -- plain insert: storage operations that follow the insert INSIDE the critical section
                           -- (`Create`: the code is usable from `Set(by-code)` on; `Set(by-id)`, `AppendToList` follow)
   sections : Nat := 1     -- fused evict protocol: 1 = check + evict + `Close()` + insert in ONE critical section;
@@ -57,6 +60,9 @@ inductive Op where
   | acquire    -- one admission request
   | release    -- give back what this thread was admitted with last (close / delete), one step
   | other      -- an admission request of ANOTHER client: same protocol, same mutex, not counted here
+  | touch      -- read-modify-write of the record of item 0 that does not change its status (`RecordMappingUsage`):
+               -- record lock, read, write back, unlock.  The record lock is the mutex of the thread's `inst`
+  | mrevoke    -- the same shape, the write marks item 0 revoked (`RevokeMapping`)
   | revoke (failAt : Option Nat)
                -- give back through the service (`RevokeConnectionCode` of the own code), five storage calls, not under
                -- the quota mutex: claim, read, `Set(by-code)` (unusable), `Set(by-id)` (no longer counted), release claim;
@@ -264,6 +270,40 @@ def revokeStep (c : Cfg) (tid k : Nat) (fail : Bool) : Cfg :=
         else stpCfg c tid { c.threads tid with pc := .revoking 4 } c.locks
   | _ => endCfg c tid -- ReleaseClaim (a failure is only logged)
 
+/-- Item `it` leaves through a request that ends with this step. -/
+def relCore (c : Cfg) (tid it : Nat) : Cfg :=
+  { c with occ := c.occ.erase it,
+           threads := upd c.threads tid (finishOp (c.threads tid)),
+           trace := c.trace ++ [.rel tid it (c.occ.erase it).length] }
+
+/-- Write-back of a usage update (`k = 1`: the copy it read said "active").  Under the record lock from
+the read on, the copy is current; read before the lock (`staleWrite`), it may resurrect a revoked item. -/
+def touchWrite (P : Proto) (c : Cfg) (tid k : Nat) : Cfg :=
+  if P.staleWrite && k == 1 && !(c.occ.contains 0) then
+    unlockCfg P { c with occ := c.occ ++ [0],
+                         threads := upd c.threads tid (finishOp (c.threads tid)),
+                         trace := c.trace ++ [.stp tid (c.occ.length + 1)] } (c.threads tid).inst
+  else doneCfg P c tid
+
+def mrevokeWrite (P : Proto) (c : Cfg) (tid : Nat) : Cfg :=
+  if 0 ∈ c.occ then unlockCfg P (relCore c tid 0) (c.threads tid).inst else doneCfg P c tid
+
+/-- Steps of a read-modify-write request on the record of item 0: (record lock +) read, then write
+back (+ unlock).  Nothing injectable sits between `Lock()` and the read, so they are one step; a request
+that finds the lock held queues up and, once handed the lock, performs its read (`.locked`). -/
+def rmwStep (P : Proto) (c : Cfg) (tid : Nat) (isRevoke : Bool) : Cfg :=
+  match (c.threads tid).pc with
+  | .idle =>
+    if P.mutex && !P.staleWrite then
+      if (c.threads tid).inst ∈ c.locks then waitCfg c tid
+      else stpCfg c tid { c.threads tid with pc := .noise (if 0 ∈ c.occ then 1 else 0) }
+             (holdLock c.locks (c.threads tid).inst)
+    else stpCfg c tid { c.threads tid with pc := .noise (if 0 ∈ c.occ then 1 else 0) } c.locks
+  | .waiting => blkCfg c tid
+  | .locked => stpCfg c tid { c.threads tid with pc := .noise (if 0 ∈ c.occ then 1 else 0) } c.locks
+  | .noise k => if isRevoke then mrevokeWrite P c tid else touchWrite P c tid k
+  | _ => c
+
 /-- One atomic step of thread `tid`. -/
 def stepThread (P : Proto) (limit : Nat) (c : Cfg) (tid : Nat) : Cfg :=
   match (c.threads tid).ops with
@@ -301,6 +341,8 @@ def stepThread (P : Proto) (limit : Nat) (c : Cfg) (tid : Nat) : Cfg :=
     | .evicting v => if P.fused then evictFinish P c tid v else c
     | .scanning rest acc => scanStep P limit c tid rest acc
     | .revoking _ => c
+  | .touch :: _ => rmwStep P c tid false
+  | .mrevoke :: _ => rmwStep P c tid true
   | .revoke failAt :: _ =>
     match (c.threads tid).pc with
     | .idle =>
